@@ -37,6 +37,8 @@ def atoms(theme):
         _leaf("s", (), (), c),
         _leaf("u", ("j", "i"), (), c),
         _leaf("t", ("l", "i"), (), c),
+        _leaf("v", ("i", "k"), (), c),
+        _leaf("vk", ("k", "i"), (), c),
     ]
     E = [
         _leaf("e", ("i",), (2,), c),
@@ -151,6 +153,14 @@ def wrappers(theme, e, rng=None, full=True):
     for o in others[:2]:
         try:
             if type_of(o)[1] == (dtype, shape):
+                yield stack("st", (e, o))
+                yield stack("st", (o, e, o))
+        except Exception:
+            pass
+    for o in A:     # a part that mentions the same inputs in a different order
+        try:
+            io, to = type_of(o)
+            if o != e and set(io) == set(ins) and list(io) != list(ins) and to == (dtype, shape):
                 yield stack("st", (e, o))
                 yield stack("st", (o, e, o))
         except Exception:
